@@ -180,6 +180,7 @@ fn drive<M: Monitor>(m: &M, a: &Args) -> i32 {
         scale: a.scale,
         watchdog_s: a.watchdog,
         shard: a.shard,
+        inflight_dir: a.part.as_ref().map(|p| std::path::PathBuf::from(format!("{}.inflight", p.display()))),
     };
     let r = campaign::run(m, &cfg);
     finish(m, a, r.report, r.wall_s, true)
